@@ -429,6 +429,20 @@ impl<'a> Digest<'a> {
         self.run.out.end == simrt::End::Complete && !self.stores[s].shutdowns.is_empty()
     }
 
+    /// the event index after which store s certainly does nothing any more: the return of a
+    /// clean stop, or (on a fully drained run) the exit of the thread that hosted the reducer loop
+    pub fn end_of_store(&self, s: usize) -> Option<usize> {
+        let sd = &self.stores[s];
+        if let Some(c) = sd.clean_stop {
+            return self.calls[c].ret;
+        }
+        if self.drained(s) {
+            let rt = sd.rtid?;
+            return self.ev.iter().position(|e| matches!(&e.k, K::Exit { tid, .. } if *tid == rt));
+        }
+        None
+    }
+
     pub fn store_name(&self, s: usize) -> &str {
         &self.stores[s].model.name
     }
